@@ -29,7 +29,8 @@ TRAIT_OPS = {
 ALL_DEC = ('d',)
 ANY = ('d',) + tuple(INTS)
 KERNEL_OPS = {
-    'powers_of_ten::': [('add', ALL_DEC, ANY), ('sub', ANY, ALL_DEC), ('round', ALL_DEC, None), ('eq', ALL_DEC, ANY)],
+    'powers_of_ten::': [('from_str', ('s',), None), ('add', ALL_DEC, ANY), ('sub', ANY, ALL_DEC), ('round', ALL_DEC, None), ('eq', ALL_DEC, ANY),
+                        ('rem', ALL_DEC, ALL_DEC)],
     'adjust_coeffs': [('eq', ALL_DEC, ALL_DEC), ('partial_cmp', ALL_DEC, ALL_DEC)],
     'i128_div_mod_floor': [('round', ALL_DEC, None), ('div_rounded', ALL_DEC, ALL_DEC), ('to_string', ALL_DEC, None)],
     'rounding::': [('round', ALL_DEC, None), ('div_rounded', ANY, ALL_DEC), ('mul', ALL_DEC, ALL_DEC), ('div', ALL_DEC, ANY),
@@ -134,6 +135,63 @@ def coeff_pool(rng, extra=40):
             pool.add(v)
             pool.add(-v)
     return sorted(pool)
+
+
+
+def float_mid_decimals():
+    """Decimals at / next to the midpoints between adjacent f32 / f64 values (and hence, for f32, values whose
+    f64 image is such a midpoint): the inputs on which a wrong or a double rounding shows."""
+    from fractions import Fraction
+    out = []
+    for F in (24, 53):
+        for e in (-(F + 2), -F, -(F - 1), -(F - 4), -12, -3, 0, 3):
+            for M in ((1 << (F - 1)), (1 << (F - 1)) + 1, (1 << (F - 1)) + 2, (1 << F) - 1, (1 << (F - 1)) + 0x2b3):
+                mid = Fraction(2 * M + 1) * Fraction(2) ** (e - 1)
+                for n in (18, 12, 7):
+                    c = (mid * 10 ** n).numerator // (mid * 10 ** n).denominator
+                    for dlt in (-1, 0, 1, 2):
+                        v = c + dlt
+                        if 0 < v <= oracle.I128_MAX:
+                            out.append('d:%d:%d' % (v, n))
+                            out.append('d:%d:%d' % (-v, n))
+    return out
+
+
+def aligned_pairs(lk, rk, rng):
+    """operand pairs whose alignment to the larger scale lands on / next to the i128 boundary or a power of ten
+    (the region where a wrong bound in a scaling helper shows)"""
+    mx = oracle.I128_MAX
+    out = []
+
+    def enc(kind, c, n):
+        if kind == 'd':
+            return 'd:%d:%d' % (c, n)
+        if n != 0:
+            return None
+        lo, hi = oracle.INT_RANGES[kind]
+        if kind == 'i128':
+            lo += 1
+        return '%s:%d' % (kind, c) if lo <= c <= hi else None
+    for k in (1, 2, 5, 9, 17, 18):
+        for s in sorted(set((0, 18 - k))):
+            p = 10 ** k
+            coarse = [10 ** (38 - k), 10 ** (38 - k) - 1, 12 * 10 ** (37 - k), 15 * 10 ** (37 - k), 17 * 10 ** (37 - k), mx // p, mx // p + 1,
+                      2 * 10 ** (38 - k), 10 ** (37 - k), 10 ** (37 - k) + 3]
+            for c in coarse:
+                fine = [1, 0, 7, 10 ** 37, 15 * 10 ** 37, 12 * 10 ** 37, mx, mx - 1, 10 ** 38, 10 ** 38 + 7]
+                if c * p <= mx:
+                    fine += [c * p, c * p - 1, c * p - 7] + ([c * p + 1, c * p + 7] if c * p + 7 <= mx else [])
+                for sg in (1, -1):
+                    for f in fine:
+                        for sf in (1, -1):
+                            a, b = enc(lk, sg * c, s), enc(rk, sf * f, s + k)
+                            if a and b:
+                                out.append((a, b))
+                            a, b = enc(lk, sf * f, s + k), enc(rk, sg * c, s)
+                            if a and b:
+                                out.append((a, b))
+    rng.shuffle(out)
+    return out
 
 
 def operands(kind, rng, budget):
@@ -244,11 +302,12 @@ def search(pid, r, d, key, tier, seed, profile_pair=None, budget=None):
     return _search(pid, r, d, key, tier, seed, profile_pair, budget)
 
 
-def _search(pid, r, d, key, tier, seed, profile_pair=None, budget=None):
+def _search(pid, r, d, key, tier, seed, profile_pair=None, budget=None, combos=None):
     """returns a dict describing the failing input, or None"""
     rng = random.Random(seed or 12345)
     deadline = time.time() + (budget or (300 if tier == 'thorough' else 25))
-    combos = ops_for(key.get('fn'))
+    if combos is None:
+        combos = ops_for(key.get('fn'))
     for op, lks, rks in combos:
         for lk in lks:
             for rk in (rks or (None,)):
@@ -256,7 +315,14 @@ def _search(pid, r, d, key, tier, seed, profile_pair=None, budget=None):
                     return None
                 ls = operands(lk, rng, 400 if rk else 4000)
                 rs = operands(rk, rng, 60) if rk else ['-']
-                modes = oracle.MODES if op in ROUNDING_OPS else ['RoundHalfEven']
+                if op in ('into_f32', 'into_f64'):
+                    ls = float_mid_decimals() + ls
+                # the thread default rounding mode is an input of every operation (a result that must not
+                # depend on it is compared under the default and under one other mode)
+                modes = oracle.MODES if op in ROUNDING_OPS else ['RoundHalfEven', rng.choice([m_ for m_ in oracle.MODES if m_ != 'RoundHalfEven'])]
+                pairs = []
+                if rk and (lk == 'd' or lk in oracle.INT_RANGES) and (rk == 'd' or rk in oracle.INT_RANGES) and 'd' in (lk, rk):
+                    pairs = aligned_pairs(lk, rk, rng)[:3000]
                 ns = [0]
                 if op in ('div_rounded', 'mul_rounded'):
                     ns = [0, 1, 2, 5, 17, 18, 19, 32, 255]
@@ -267,10 +333,15 @@ def _search(pid, r, d, key, tier, seed, profile_pair=None, budget=None):
                     precs = ['-', '0', '1', '2', '5', '17', '18', '19', '40']
                 lines = []
                 metas = []
+                for l, rr in pairs:
+                    n = ns[0] if len(ns) == 1 else rng.choice(ns)
+                    m = 'RoundHalfEven' if len(modes) <= 2 else rng.choice(modes)
+                    lines.append('\t'.join([op, l, rr, str(n), m, precs[0]]))
+                    metas.append((op, l, rr, n, m, precs[0]))
                 for l in ls:
                     for rr in rng.sample(rs, min(len(rs), 12)):
                         for n in (ns if len(ns) <= 3 else rng.sample(ns, 4)):
-                            for m in (modes if len(modes) == 1 else rng.sample(modes, 3)):
+                            for m in (modes if len(modes) <= 2 else rng.sample(modes, 3)):
                                 for pr in (precs if len(precs) == 1 else rng.sample(precs, 3)):
                                     lines.append('\t'.join([op, l, rr, str(n), m, pr]))
                                     metas.append((op, l, rr, n, m, pr))
